@@ -59,8 +59,15 @@ func (q *Queue) pop() (workItem, bool) {
 			return workItem{}, false
 		}
 		if n := len(q.items); n > 0 {
-			it := q.items[n-1]
-			q.items = q.items[:n-1]
+			// depth-first within a harness, harnesses in registration order
+			best := n - 1
+			for i := n - 1; i >= 0 && i >= n-64; i-- {
+				if q.items[i].h < q.items[best].h {
+					best = i
+				}
+			}
+			it := q.items[best]
+			q.items = append(q.items[:best], q.items[best+1:]...)
 			q.busy++
 			return it, true
 		}
